@@ -183,6 +183,18 @@ def boost_images2(spec, rng, cls):
         add("Client", "x86_64", checksums=dict(reversed(list(cks.items()))))
     elif cls == 3:
         add("Workstation", "x86_64", unified=True, additional_variants=["Server", "Client", "A", "server", "Client", "10", "9"][:rng.randint(3, 7)])
+    elif cls == 4:
+        # TWINS in one cell: distinct paths (and mtime / size), the SAME seven identity attributes and the SAME checksums - legal (only
+        # differing checksums are refused) - on a manifest whose header version makes `Images.add` run its uniqueness scan (>= 1.1)
+        spec["version"] = rng.choice(["1.2", "1.1", "2.0"])
+        base = FIM.gen_image(rng, k, "Twins", "x86_64", t)
+        base["disc_number"], base["disc_count"] = 4000 + len(spec["pool"]), 9000
+        for j, name in enumerate(["zz-latest", "a-22", "M-copy", "0-first"][:rng.randint(2, 4)]):
+            tw = copy.deepcopy(base)
+            tw["path"] = "Twins/x86_64/images/%s.%s" % (name, base["format"])
+            tw["mtime"], tw["size"] = 1000 + j, 5 + j
+            spec["pool"].append(tw)
+            spec["adds"].append(["Twins", "x86_64", len(spec["pool"]) - 1])
     return spec
 
 
@@ -347,6 +359,11 @@ def features(fmt, spec):
         idx = [x[2] for x in spec["adds"]]
         if len(set(idx)) < len(idx):
             f.append("im:one object filed in several cells")
+        for v, d in cells.items():
+            for a, c in d.items():
+                ids = [json.dumps([FIM.identity7(spec["pool"][i]), spec["pool"][i]["checksums"]], sort_keys=True, default=str) for i in c]
+                if len(set(ids)) < len(ids) and spec.get("version") not in ("0.0", "1.0"):
+                    f.append("im:twins in one cell (equal identity and checksums, distinct paths), header >= 1.1")
     elif fmt == "treeinfo":
         if _u3(v["key"] for v in spec["variants"]):
             f.append("ti:top-level variant dict >=3 unsorted")
@@ -545,7 +562,7 @@ class C08(Prop):
             spec = FIM.gen(rng, tier, version=rng.choice(["1.2", "1.2", "1.1", "0.0", "2.0"]))
             if i % 8 <= 2:
                 spec = boost_images(spec, rng)
-            elif i % 8 <= 6:
+            else:
                 spec = boost_images2(spec, rng, i % 8 - 3)
         elif fmt == "treeinfo":
             spec, mv = FTI.gen(rng, tier)
